@@ -21,4 +21,4 @@ Deliver in the directory {wt}/_seed/ (create it):
   1. patch.diff — `git diff` of your change (source files only; no test edits; keep it small, at most ~30 changed lines).
   2. a demonstration: a Go test file (place it inside the relevant package directory of the worktree so it can use internals, name it zz_seed_demo_test.go, and copy it into _seed/ as well) that PASSES on the unmodified code and FAILS with your change applied, and fails BECAUSE the property is violated (say in a comment which clause of the property).
   3. README.md — what the change is, why it breaks the property, what is needed for it to manifest, exactly which commands you ran and their results.
-You must verify yourself, in this order: with the change applied `go build ./...` succeeds; the existing tests of every package you touched and of the packages that depend on it most directly pass (`go test -count=1 ./pkg/<touched>/... ` plus `go test -count=1 ./pkg/core/...` when you touched anything under pkg/core, pkg/vm, pkg/io, pkg/crypto or pkg/smartcontract; run the whole suite `go test -count=1 -vet=off ./...` if time allows, it takes about 5–10 minutes); the demonstration fails with the change and passes after reverting the source change (do NOT use `git stash`: the stash is shared by all worktrees of this repository and other engineers are working in sibling worktrees — use `git diff > /tmp/x.diff; git apply -R /tmp/x.diff` and `git apply /tmp/x.diff` instead) (run it both ways and paste both outputs into README.md). If an existing test catches your change, pick a different change. Leave the worktree with the change APPLIED and the demo test file in place. Reply with a short summary (files changed, how it manifests, test results).""")
+You must verify yourself, in this order: with the change applied `go build ./...` succeeds; the existing tests of every package you touched and of the packages that depend on it most directly pass (`go test -count=1 ./pkg/<touched>/... ` plus `go test -count=1 ./pkg/core/...` when you touched anything under pkg/core, pkg/vm, pkg/io, pkg/crypto or pkg/smartcontract; run the whole suite `go test -count=1 -vet=off ./...` if time allows, it takes about 5–10 minutes); the demonstration fails with the change and passes after reverting the source change (do NOT use `git stash`: the stash is shared by all worktrees of this repository and other engineers are working in sibling worktrees — use `git diff > /tmp/x.diff; git apply -R /tmp/x.diff` and `git apply /tmp/x.diff` instead) (run it both ways and paste both outputs into README.md). If an existing test catches your change, pick a different change. Leave the worktree with the change APPLIED and the demo test file in place. Reply in AT MOST 12 lines: the file and function changed, one sentence on what the change is, one on what it needs to manifest, and the test results (everything else belongs in README.md).""")
